@@ -311,6 +311,27 @@ def text_strategy():
     return st.lists(chars, max_size=8).map(''.join)
 
 
+PURITY_TEMPLATES = ['=LEN(A1)',
+                    '=LEFT(A1,B1)',
+                    '=RIGHT(A1,B1)',
+                    '=MID(A1,B1,1)',
+                    '=FIND(A1,B1)',
+                    '=SEARCH(A1,B1)',
+                    '=TRIM(A1)',
+                    '=UPPER(A1)',
+                    '=LOWER(A1)',
+                    '=VALUE(A1)',
+                    '=TEXT(A1,"0.0")',
+                    '=TEXT(A1,B1)',
+                    '=CONCATENATE(A1,B1)',
+                    '=REPLACE(A1,1,B1,"x")',
+                    '=SUBSTITUTE(A1,B1,"x")',
+                    '=REPT(A1,B1)',
+                    '=EXACT(A1,B1)',
+                    '=T(A1)',
+                    '=N(A1)']
+
+
 def shards(tier, seed):
     out = []
     parts = 8
@@ -326,10 +347,14 @@ def shards(tier, seed):
     for k in range(n_h):
         out.append(dict(kind='hyp', seed=seed * 1000 + k,
                         n=1200 if tier == 'quick' else 20000))
+    out.append(dict(kind='purity'))
     return out
 
 
 def run_shard(shard, rec):
+    if shard['kind'] == 'purity':
+        from vlib import purity
+        return purity.run(rec, ID, PURITY_TEMPLATES)
     kind = shard['kind']
     ctx = Ctx(rec)
     if kind == 'slices':
@@ -430,6 +455,9 @@ def run_shard(shard, rec):
 
 
 def replay(case, rec):
+    from vlib import purity
+    if purity.is_case(case):
+        return purity.replay(rec, ID, case)
     if isinstance(case, list):
         ctx = Ctx(rec)
         if case[0] == 'slice':
